@@ -1280,9 +1280,11 @@ def run(tier, seed, replay):
         cap_s, cap_n = 5000, 2000
         keep = set(range(len(CORPUS)))
         if len(stable) > cap_s:
-            stable = [x for x in stable if x[0] in keep] + chk.rng.sample([x for x in stable if x[0] not in keep], cap_s)
+            rest = [x for x in stable if x[0] not in keep]
+            stable = [x for x in stable if x[0] in keep] + chk.rng.sample(rest, min(cap_s, len(rest)))
         if len(nightly) > cap_n:
-            nightly = [x for x in nightly if x[0] in keep] + chk.rng.sample([x for x in nightly if x[0] not in keep], cap_n)
+            rest = [x for x in nightly if x[0] not in keep]
+            nightly = [x for x in nightly if x[0] in keep] + chk.rng.sample(rest, min(cap_n, len(rest)))
         stable.sort()
         nightly.sort()
     compiled = set(x[0] for x in stable + nightly + e_stable + e_nightly)
